@@ -98,3 +98,36 @@ Definition check (s : bytes) (o : obs) : bool :=
   end.
 
 Definition mm := mismatches model oeqb check.
+
+(* ---------------------------------------------------------------- search mode only
+   Used by the driver after an obligation has stopped checking (e.g. C19_levels on a regenerated
+   orderOfOps), to look for a concrete failing formula: the property's own order of operations
+   ("^ before * / % before + - before comparisons before && ||, equal levels left to right"), frozen
+   here and NOT regenerated from the source, against the tree the (regenerated) parser builds.
+   Formulas using any other binary operator (shifts, & |: the property does not place them) are
+   skipped.  Never part of the quick/thorough decision on a tree whose obligations all check. *)
+Definition specOrder : list (list bytes) :=
+  [ [[94]]; [[42]; [47]; [37]]; [[43]; [45]];
+    [[61;61]; [60;61]; [62;61]; [62]; [60]]; [[38;38]; [124;124]] ]%N.
+Definition slvl (o : bytes) : nat := lvl bytes bytes_eqb specOrder o.
+Definition spec_op (o : bytes) : bool := Nat.ltb (slvl o) (List.length specOrder).
+Fixpoint spec_ops_only (t : mast) : bool :=
+  match t with
+  | Atom _ => true | Grp e => spec_ops_only e | Un _ e => spec_ops_only e
+  | Bin o _ l r => spec_op o && spec_ops_only l && spec_ops_only r
+  end.
+Fixpoint spec_wpb (t : mast) : bool :=
+  match t with
+  | Atom _ => true | Grp e => spec_wpb e | Un _ e => spec_wpb e
+  | Bin o _ l r =>
+      spec_wpb l && spec_wpb r
+      && match l with Bin ol _ _ _ => Nat.leb (slvl ol) (slvl o) | _ => true end
+      && match r with Bin or' _ _ _ => Nat.ltb (slvl or') (slvl o) | _ => true end
+  end.
+Definition check_search (s : bytes) (o : obs) : bool :=
+  check s o &&
+  match parse_formula true s with
+  | OOk t => if spec_ops_only t then spec_wpb t else true
+  | _ => true
+  end.
+Definition mm_search := mismatches model oeqb check_search.
